@@ -366,6 +366,50 @@ func runRelay(t vh.TB, c *RelayCase) vh.Outcome {
 		}
 		return nil
 	}
+	// while the responses are posted, every backend's agent goes on polling, as a real agent does: a request whose
+	// response has been accepted (200) must not turn up in a list reply that was asked for after that
+	type listing struct {
+		asked time.Time
+		ids   []string
+		bi    int
+	}
+	var lmu sync.Mutex
+	var listings []listing
+	stopPoll := make(chan struct{})
+	var pollWG sync.WaitGroup
+	for bi := 0; bi < c.Backends; bi++ {
+		bi := bi
+		pollWG.Add(1)
+		go func() {
+			defer pollWG.Done()
+			b := backends[bi]
+			for {
+				select {
+				case <-stopPoll:
+					return
+				default:
+				}
+				asked := time.Now()
+				resp := r.Do("agent", "GET", "/agent/pending", agentHeaders(b, ""), nil, aerig.Identity{OAuthEmail: b.agent}, 250*time.Millisecond)
+				var ids []string
+				if resp.Err == nil && resp.Status == 200 && json.Unmarshal(resp.Body, &ids) == nil && len(ids) > 0 {
+					lmu.Lock()
+					listings = append(listings, listing{asked, ids, bi})
+					lmu.Unlock()
+				}
+				time.Sleep(time.Millisecond)
+			}
+		}()
+	}
+	accepted := map[string]time.Time{}
+	defer func() {
+		select {
+		case <-stopPoll:
+		default:
+			close(stopPoll)
+		}
+		pollWG.Wait()
+	}()
 	for _, f := range order {
 		if f.q.AgentMs > 0 {
 			time.Sleep(time.Duration(f.q.AgentMs) * time.Millisecond)
@@ -389,6 +433,7 @@ func runRelay(t vh.TB, c *RelayCase) vh.Outcome {
 			o.TimedOut = vh.IsTimeout(resp.Err)
 			return o
 		}
+		accepted[f.rid] = time.Now()
 		// the client gets exactly this response
 		select {
 		case cr := <-f.done:
@@ -412,7 +457,22 @@ func runRelay(t vh.TB, c *RelayCase) vh.Outcome {
 			}
 		}
 	}
-	// a completed id is no longer listed
+	// a completed id is no longer listed: not in what the concurrent pollers were told (they go on for another 0.3 s) ...
+	time.Sleep(300 * time.Millisecond)
+	close(stopPoll)
+	pollWG.Wait()
+	lmu.Lock()
+	for _, l := range listings {
+		for _, id := range l.ids {
+			if t, ok := accepted[id]; ok && l.asked.After(t) {
+				lmu.Unlock()
+				o.Err = fmt.Errorf("request %s was listed as pending in a reply asked for %v after the proxy had accepted its response (200)", id, l.asked.Sub(t).Round(time.Millisecond))
+				return o
+			}
+		}
+	}
+	lmu.Unlock()
+	// ... and not in a list asked for now
 	time.Sleep(5 * time.Millisecond)
 	for bi := 0; bi < c.Backends; bi++ {
 		b := backends[bi]
